@@ -182,8 +182,22 @@ def rules(rep, m):
         rets = [render(kids(x)[0]) for x in walk(bn.body) if x["kind"] == "ReturnStmt"]
         r4.instance("binomial: %s round(s): %s; returns %s" % (trip, adds, rets))
         # exactly n rounds, each adding one Bernoulli outcome (the 0/1 function, inlined or called) to the value returned
-        okb = trip == bn.params[0]["name"] and len(adds) == 1 and adds[0][0] == (rets[0] if rets else None) and \
-            (("<=" in adds[0][1] and "? 1 : 0" in adds[0][1]) or re.fullmatch(r"cmb_random_bernoulli\(\w+\)", adds[0][1]) is not None)
+        def is_trial(t_):
+            return ("<=" in t_ and "? 1 : 0" in t_) or re.fullmatch(r"cmb_random_bernoulli\(\w+\)", t_) is not None
+        okb = trip == bn.params[0]["name"] and len(adds) == 1 and adds[0][0] == (rets[0] if rets else None) and is_trial(adds[0][1])
+        if not okb and trip == bn.params[0]["name"] and not adds:
+            # the outcome tested and the counter raised by one: if (trial) ctr++ / if (trial != 0) ctr += 1
+            incs_ = [y for y in walk(body_) if (y["kind"] == "UnaryOperator" and y.get("opcode") == "++") or
+                     (y["kind"] == "CompoundAssignOperator" and y.get("opcode") == "+=")]
+            if len(incs_) == 1 and render(kids(incs_[0])[0]) == (rets[0] if rets else None):
+                conds_ = inv.dominating_conditions(bx, bn, incs_[0])
+                loop_conds = inv.dominating_conditions(bx, bn, lps[0])
+                extra_ = [c_ for c_ in conds_ if c_ not in loop_conds]
+                if len(extra_) == 1:
+                    mm_ = re.fullmatch(r"\((.+) != 0\)|\((.+) == 1\)|!\((.+) == 0\)|(.+)", extra_[0])
+                    t_ = next((g_ for g_ in mm_.groups() if g_), "") if mm_ else ""
+                    okb = is_trial(t_) or is_trial(t_.strip("()"))
+                    r4.instance("binomial: the counter is raised by one under '%s'" % extra_[0])
     if not okb:
         rep.finding(r4, bn.name, "binomial:count", "the binomial sampler does not add one 0/1 trial per iteration over exactly n "
                     "iterations", where=m.rel(bn.where))
@@ -321,7 +335,16 @@ def rules(rep, m):
         stmts = kids(f.body)
         first_code = next((i for i, s_ in enumerate(stmts) if any_assert_condition(s_) is None), len(stmts))
         posts = [any_assert_condition(s_) for s_ in stmts[first_code:] if any_assert_condition(s_) is not None]
-        if not ends or not posts:
+        # assertions on the result placed inside a branch: they speak only for parameter values that reach the branch
+        nested = []
+        for s_ in stmts[first_code:]:
+            if any_assert_condition(s_) is not None:
+                continue
+            for y in walk(s_):
+                if y is not s_ and y["kind"] in ("DoStmt", "ParenExpr", "ConditionalOperator") and any_assert_condition(y) is not None and \
+                        not any(z["kind"] in ("ForStmt", "WhileStmt") for z in inv.enclosing_chain(f, y)):
+                    nested.append((any_assert_condition(y), inv.dominating_cond_nodes(f, y)))
+        if not ends or not (posts or nested):
             continue
         for p_, v_ in ends:
             e = Eval(m, f, cx, any_assert_condition, guards=False)
@@ -349,13 +372,17 @@ def rules(rep, m):
                                             where=m.rel(loc(last)))
                                 r6.fail()
                         break
-            verdicts = [definitely(e, c) for c in posts] if reach else []
-            r6.instance("%s at %s = %g: %s" % (f.name, p_, v_, ["%s: %s" % (render(c)[:40], d) for c, d in zip(posts, verdicts)]
+            live = list(posts)
+            for c_, doms_ in nested:
+                if all(definitely(e, dn_) is not (not dt_) for dn_, dt_ in doms_):
+                    live.append(c_)
+            verdicts = [definitely(e, c) for c in live] if reach else []
+            r6.instance("%s at %s = %g: %s" % (f.name, p_, v_, ["%s: %s" % (render(c)[:40], d) for c, d in zip(live, verdicts)]
                                               if reach else "returns early"))
             rep.sample({"rule": "R-C16-6", "function": f.name, "pinned": "%s = %g" % (p_, v_),
-                        "post": [[render(c)[:60], str(d)] for c, d in zip(posts, verdicts)]})
+                        "post": [[render(c)[:60], str(d)] for c, d in zip(live, verdicts)]})
             if any(d is False for d in verdicts):
-                bad = [render(c) for c, d in zip(posts, verdicts) if d is False]
+                bad = [render(c) for c, d in zip(live, verdicts) if d is False]
                 ret = [x for x in walk(f.body) if x["kind"] == "ReturnStmt" and kids(x)]
                 riv = e.ev(kids(ret[-1])[0]) if ret else None
                 rep.finding(r6, f.name, "boundary:%s=%g" % (p_, v_), "%s with %s = %g (admitted by its precondition) returns a "
